@@ -149,6 +149,7 @@ def parseFacts (j : Json) : Except String Facts := do
     convertible := fun a b => (convertible.getD a #[]).getD b false
     identical := fun a b => (identical.getD a #[]).getD b false
     lookup := fun t n => ((lookups.find? (fun e => e.1 == (t, n))).map (·.2)).getD .none
+    pkgScope := fun n => scopeNames.contains n
     pkgPath := ← getStr j "pkgPath"
     imports := importNamesOf imports
     stringTy := ← getNat j "stringTy" }
